@@ -190,7 +190,7 @@ func propC18(c *Ctx) {
 	}
 
 	// ---- R18.2 ----------------------------------------------------------
-	c.Rule("R18.2", "a spawned closure writes a captured variable only under a lock, or when it is the only instance and the spawner touches the variable only after the join", 3)
+	c.Rule("R18.2", "a spawned closure writes a captured variable only under a lock, or when it is the only instance and the spawner touches the variable only after the join", 2)
 	propC18Captured(c, res, isJoin)
 
 	// ---- R18.3 ----------------------------------------------------------
@@ -229,6 +229,67 @@ func propC18(c *Ctx) {
 						fmt.Sprintf("guarded field %s.%s is assigned the caller's %s itself: the caller (e.g. a poller reusing its decode buffer) keeps writing memory that readers copy under the lock", row.typ, row.field, p.Name()))
 				}
 			})
+		}
+	}
+	// (d) plain data that a function hands out (a memo returned to callers, e.g.
+	// the transaction hash) is published: it may be replaced by a fresh value
+	// under the lock, never rewritten in place – readers hold the old slice
+	// without any lock
+	for _, row := range guardedByTable {
+		f := w.FieldOpt(row.short, row.typ, row.field)
+		if f == nil || carriesLock(f.Type(), 0) {
+			continue
+		}
+		if _, isSl := f.Type().Underlying().(*types.Slice); !isSl {
+			continue
+		}
+		published := false
+		for _, fn := range w.RepoFuncs() {
+			for _, r := range returnsOf(fn) {
+				for _, v := range returnValues(r) {
+					if isLoadOfField(stripConv(v), f) {
+						published = true
+					}
+				}
+			}
+		}
+		if !published {
+			continue
+		}
+		n := 0
+		for _, fn := range w.RepoFuncs() {
+			if takesTestingTB(fn) {
+				continue
+			}
+			allInstrs(fn, func(in ssa.Instruction) {
+				desc := ""
+				switch x := in.(type) {
+				case *ssa.Call:
+					if cal := staticCallee(x); cal != nil && cal.Signature.Recv() != nil && len(x.Call.Args) > 0 {
+						if _, isPtr := cal.Signature.Recv().Type().(*types.Pointer); isPtr {
+							if ff, base := fieldOf(x.Call.Args[0]); ff == f && !isLocalAlloc(accessPath(base).Root) {
+								desc = "call of " + shortCallee(x) + " on the field"
+							}
+						}
+					}
+					if b, ok := x.Call.Value.(*ssa.Builtin); ok && b.Name() == "copy" && isLoadOfField(stripConv(x.Call.Args[0]), f) {
+						desc = "copy into the field's bytes"
+					}
+				case *ssa.Store:
+					if ia, ok := x.Addr.(*ssa.IndexAddr); ok && isLoadOfField(stripConv(ia.X), f) {
+						desc = "element store"
+					}
+				}
+				if desc == "" {
+					return
+				}
+				n++
+				c.Violation("R18.4", fmt.Sprintf("%s/in-place-write-of-published-%s.%s#%d", fnName(fn), row.typ, row.field, n), instrPos(in),
+					fmt.Sprintf("%s: %s.%s is returned to callers, who read it without the lock; rewriting its bytes in place races with them (assign a fresh slice instead)", desc, row.typ, row.field))
+			})
+		}
+		if n == 0 {
+			c.OK("R18.4", fmt.Sprintf("published-%s.%s-never-rewritten-in-place", row.typ, row.field), f.Pos(), "handed out to callers and only ever replaced by a fresh value")
 		}
 	}
 	// (b) escape of guarded storage
@@ -275,13 +336,24 @@ func propC18(c *Ctx) {
 				}
 			}
 		}
+		// a return that lives in a helper only the cache's get calls is get's return
+		// (the finding is about what get hands out, wherever the statement stands)
+		getFn := w.FnOpt("jrpc2", "(*cache).get")
+		var getReg *Region
+		if getFn != nil {
+			getReg = NewRegion(getFn)
+		}
+		counts := map[*ssa.Function]int{}
 		for _, fn := range w.RepoFuncs() {
-			n := 0
+			owner := fn
+			if getReg != nil && getReg.Has(fn) {
+				owner = getFn
+			}
 			for _, r := range returnsOf(fn) {
 				for _, v := range returnValues(r) {
 					if isLoadOfField(v, f) {
-						n++
-						c.Violation("R18.4", fmt.Sprintf("%s/return-of-%s.%s#%d", fnName(fn), row.typ, row.field, n), instrPos(r),
+						counts[owner]++
+						c.Violation("R18.4", fmt.Sprintf("%s/return-of-%s.%s#%d", fnName(owner), row.typ, row.field, counts[owner]), instrPos(r),
 							fmt.Sprintf("%s returns %s.%s itself: callers read/copy storage that other goroutines mutate under the lock", fnName(fn), row.typ, row.field))
 					}
 				}
